@@ -36,10 +36,22 @@ type Field struct {
 	Default interface{}
 }
 
+type UnionField struct {
+	FieldName          string
+	DiscriminatorValue string
+}
+
+type Union struct {
+	Discriminator string // "" = none
+	Deduce        bool
+	Fields        []UnionField
+}
+
 type Map struct {
 	Fields []Field
 	Elem   *Ref
 	Rel    string
+	Unions []Union
 }
 
 type TypeDef struct {
@@ -102,6 +114,27 @@ func atomJSON(a *Atom) map[string]interface{} {
 		}
 		if a.Map.Rel != "" {
 			mm["elementRelationship"] = a.Map.Rel
+		}
+		if len(a.Map.Unions) > 0 {
+			us := []interface{}{}
+			for _, u := range a.Map.Unions {
+				uj := map[string]interface{}{}
+				if u.Discriminator != "" {
+					uj["discriminator"] = u.Discriminator
+				}
+				if u.Deduce {
+					uj["deduceInvalidDiscriminator"] = true
+				}
+				fs := []interface{}{}
+				for _, f := range u.Fields {
+					fs = append(fs, map[string]interface{}{"fieldName": f.FieldName, "discriminatorValue": f.DiscriminatorValue})
+				}
+				if len(fs) > 0 {
+					uj["fields"] = fs
+				}
+				us = append(us, uj)
+			}
+			mm["unions"] = us
 		}
 		m["map"] = mm
 	}
@@ -190,7 +223,18 @@ func Generate(r *gen.Rng) *Schema {
 	}
 
 	// leaf-ish structs
-	add("point", Atom{Map: &Map{Fields: []Field{{Name: "x", Type: named("num")}, {Name: "y", Type: named("num")}}}})
+	pointMap := &Map{Fields: []Field{{Name: "x", Type: named("num")}, {Name: "y", Type: named("num")}}}
+	if r.Chance(40) {
+		u := Union{Deduce: r.Bool(), Fields: []UnionField{{"x", "X"}, {"y", "Y"}}}
+		if r.Bool() {
+			u.Discriminator = "kind"
+		}
+		pointMap.Unions = append(pointMap.Unions, u)
+		if r.Chance(30) {
+			pointMap.Unions = append(pointMap.Unions, Union{Fields: []UnionField{{"y", "other"}}})
+		}
+	}
+	add("point", Atom{Map: pointMap})
 	add("atomicPoint", Atom{Map: &Map{Fields: []Field{{Name: "x", Type: named("num")}, {Name: "y", Type: named("num")}}, Rel: "atomic"}})
 	add("strMap", Atom{Map: &Map{Elem: &Ref{Named: "str"}}})
 	add("atomicMap", Atom{Map: &Map{Elem: &Ref{Named: "any"}, Rel: "atomic"}})
@@ -662,7 +706,42 @@ func Edit(r *gen.Rng, s *Schema) (*Schema, string) {
 		c := s.Clone()
 		atoms := c.atoms()
 		a := atoms[r.Intn(len(atoms))]
-		switch r.Intn(10) {
+		switch r.Intn(12) {
+		case 10, 11:
+			if a.Map != nil && len(a.Map.Fields) > 0 {
+				if len(a.Map.Unions) == 0 {
+					a.Map.Unions = []Union{{Fields: []UnionField{{a.Map.Fields[0].Name, "v"}}}}
+					return c, "union added"
+				}
+				u := &a.Map.Unions[r.Intn(len(a.Map.Unions))]
+				switch r.Intn(5) {
+				case 0:
+					u.Deduce = !u.Deduce
+					return c, "union deduce flag"
+				case 1:
+					if u.Discriminator == "" {
+						u.Discriminator = "kind"
+					} else if r.Bool() {
+						u.Discriminator = ""
+					} else {
+						u.Discriminator += "2"
+					}
+					return c, "union discriminator"
+				case 2:
+					if len(u.Fields) > 0 {
+						u.Fields[r.Intn(len(u.Fields))].DiscriminatorValue += "x"
+						return c, "union field value"
+					}
+				case 3:
+					if len(u.Fields) > 0 {
+						u.Fields = u.Fields[:len(u.Fields)-1]
+						return c, "union field dropped"
+					}
+				default:
+					a.Map.Unions = a.Map.Unions[:len(a.Map.Unions)-1]
+					return c, "union dropped"
+				}
+			}
 		case 0:
 			if a.Scalar != "" {
 				old := a.Scalar
